@@ -21,7 +21,8 @@ F1 == Func("f1", "pub", <<" first">>, <<ArgM>>, TNone, None, None, "")
 F2 == Func("f2", "pub", <<>>, <<ArgC, Arg("a", TNm("u32"))>>, TNm("u32"), None, None, "")
 G  == Func("g", "pub", <<>>, <<ArgM, Arg("q", TMPtr(TNm("D")))>>, TNone, None, None, "")
 H1 == Func("h1", "pub", <<>>, <<ArgM, Arg("z", TNm("u16"))>>, TNm("u16"), None, None, "stdcall")
-BaseFuncs(n) == SubSeq(<<F1, F2>>, 1, n)
+(* n = 3: two functions with a gap between them (slot 1 is a placeholder) *)
+BaseFuncs(n) == IF n = 3 THEN <<F1, [F2 EXCEPT !.index = 2]>> ELSE SubSeq(<<F1, F2>>, 1, n)
 
 Mutate(f, v) ==
   CASE v = "rename"  -> [f EXCEPT !.name = "fx"]
@@ -42,7 +43,7 @@ DBlock(nb0, v, k) ==
        [] v = "ext"   -> Vft(None, Append(base, G))
        [] v = "extm0" -> Vft(None, Append(base, Func("m0", "priv", <<>>, <<ArgM>>, TNone, None, None, "")))
        [] v = "emptyblk" -> Vft(None, <<>>)
-       [] v = "trunc" -> Vft(None, SubSeq(base, 1, nb0 - 1))
+       [] v = "trunc" -> Vft(None, SubSeq(base, 1, Len(base) - 1))
        [] v = "swap"  -> Vft(None, IF nb0 = 2 THEN <<F2, F1>> ELSE base)
        [] OTHER -> Vft(None, [i \in DOMAIN base |-> IF i = k THEN Mutate(base[i], v) ELSE base[i]] \o <<G>>)
 
@@ -50,16 +51,22 @@ M0(extra) == Func("m0", "pub", <<" m0 doc">>, <<ArgC>> \o extra, TNm("u32"), 262
 P0 == Func("p0", "priv", <<>>, <<ArgM>>, TNone, 327680, None, "")
 MD == Func("md", "pub", <<>>, <<ArgM, Arg("v", TNm("i64"))>>, TNone, 393216, None, "fastcall")
 
-MkInput(ptr, nb0, v, k, b1, b1v, clash, dd, ddv, split, lead, eb) ==
+MkInput(ptr, nb0, v, k, b1, b1v, clash, dd, ddv, split, lead, eb, dvis) ==
   LET B0 == [TypeDef("B0", "pub", <<Leaf("x0")>>) EXCEPT !.vft = IF nb0 > 0 \/ eb THEN Vft(None, BaseFuncs(nb0)) ELSE NoVft]
       B1 == [TypeDef("B1", "pub", <<Leaf("x1")>>) EXCEPT !.vft = IF b1v THEN Vft(None, <<H1>>) ELSE NoVft]
-      D == [TypeDef("D", "pub", (IF lead THEN <<Leaf("tag")>> ELSE <<>>) \o <<BaseF("b0", "B0")>> \o (IF b1 THEN <<BaseF("b1", "B1")>> ELSE <<>>) \o <<Leaf("xd")>>)
+      (* dvis: the intermediate type need not be public for its own bases' functions to reach DD *)
+      D == [TypeDef("D", dvis, (IF lead THEN <<Leaf("tag")>> ELSE <<>>) \o <<BaseF("b0", "B0")>> \o (IF b1 THEN <<BaseF("b1", "B1")>> ELSE <<>>) \o <<Leaf("xd")>>)
               EXCEPT !.vft = DBlock(nb0, v, k)]
       DD == [TypeDef("DD", "pub", <<BaseF("d", "D")>> \o (IF dd = "diamond" THEN <<BaseF("e", "B0")>> ELSE <<>>) \o <<Leaf("y")>>)
-               EXCEPT !.vft = IF ddv THEN D.vft ELSE NoVft]
+               (* with its own block: D's, or (when D only inherits its table) the base functions again plus one *)
+               (* "flat": the same without the written indices -- compatible only when the base table has no gap *)
+               EXCEPT !.vft = IF ddv = "no" THEN NoVft
+                              ELSE IF ddv = "flat" THEN Vft(None, Append([i \in DOMAIN BaseFuncs(nb0) |-> [BaseFuncs(nb0)[i] EXCEPT !.index = None]], G))
+                              ELSE IF D.vft.has THEN D.vft ELSE Vft(None, Append(BaseFuncs(nb0), G))]
       defs == <<B0>> \o (IF b1 THEN <<B1>> ELSE <<>>) \o <<D>> \o (IF dd = "none" THEN <<>> ELSE <<DD>>)
       impls == <<Impl("B0", <<M0(<<>>), P0>>)>>
-               \o (IF b1 THEN <<Impl("B1", <<M0(<<Arg("k", TNm("i32"))>>)>>)>> ELSE <<>>)
+               (* B1 also has a public `p0`: B0's private function of that name does not take the name *)
+               \o (IF b1 THEN <<Impl("B1", <<M0(<<Arg("k", TNm("i32"))>>), Func("p0", "pub", <<>>, <<ArgC>>, TNm("u32"), 458752, None, "")>>)>> ELSE <<>>)
                \o <<Impl("D", <<IF clash = "derived" THEN M0(<<>>) ELSE MD>>)>>
       isBase(n) == n \in {"B0", "B1"}
       mbase == [Module(<<"base">>, <<>>, SelectSeq(defs, LAMBDA x : isBase(x.name)))
@@ -73,16 +80,18 @@ MkInput(ptr, nb0, v, k, b1, b1v, clash, dd, ddv, split, lead, eb) ==
 
 MCInit ==
   /\ \E ptr \in Ptrs, nb0 \in NB0, v \in Variants, k \in 1..2, b1 \in WithB1, b1v \in B1Vft,
-        clash \in Clash, dd \in DDs, ddv \in DDVft, split \in Split, lead \in Lead, eb \in EmptyBlocks :
-        /\ k <= Max(nb0, 1)
+        clash \in Clash, dd \in DDs, ddv \in DDVft, split \in Split, lead \in Lead, eb \in EmptyBlocks, dvis \in {"pub", "priv"} :
+        /\ (dvis = "priv" => (dd # "none" /\ ~split /\ ~lead /\ ~b1v /\ clash = "no"))
+        /\ k <= Max(Len(BaseFuncs(nb0)), 1)
         /\ (v \in {"none", "same", "ext", "extm0", "emptyblk", "trunc", "swap"} => k = 1)
         /\ (nb0 = 0 => v \in {"none", "ext", "extm0", "emptyblk"})
         /\ (v = "trunc" => nb0 = 2) /\ (v = "swap" => nb0 = 2)
         /\ (~b1 => ~b1v)
-        /\ (dd = "none" => ~ddv)
+        /\ (dd = "none" => ddv = "no")
+        /\ (ddv = "flat" => (v = "none" /\ nb0 = 3))
         /\ (eb => nb0 = 0)
         /\ (lead => (dd = "none" /\ clash = "no" /\ ~b1v))
-        /\ input = MkInput(ptr, nb0, v, k, b1, b1v, clash, dd, ddv, split, lead, eb)
+        /\ input = MkInput(ptr, nb0, v, k, b1, b1v, clash, dd, ddv, split, lead, eb, dvis)
   /\ InitRest
 
 MCSpec == MCInit /\ [][Next]_vars /\ WF_vars(Next)
